@@ -202,6 +202,15 @@ func (e *Engine) merge2(c *Term, a, b *State) *State {
 		return e.mfail("threads")
 	}
 	n := &State{Status: a.Status, Steps: maxInt(a.Steps, b.Steps), Unwind: a.Unwind, UnwindCut: a.UnwindCut, TripBound: a.TripBound, Forks: maxInt(a.Forks, b.Forks), Budget: a.Budget}
+	n.FreshN = map[string]int{}
+	for k, v := range a.FreshN {
+		n.FreshN[k] = v
+	}
+	for k, v := range b.FreshN {
+		if v > n.FreshN[k] {
+			n.FreshN[k] = v
+		}
+	}
 	// frames
 	n.Frames = make([]*Frame, len(a.Frames))
 	for i := range a.Frames {
